@@ -368,6 +368,16 @@ def typeOutLine (numpy : Bool) (hdr : Nat) (es : List Entry) (k : Nat) : Nat :=
 
 def typedCount (es : List Entry) : Nat := (es.filter (·.typed)).length
 
+/-- `lineno_offset` of "Documented parameter … does not exist" for entry `k` of a google / numpy parameter
+section: the converted text goes through the reStructuredText reader, `Field.lineno` = line of `:param` -/
+def convertedParamOffset (numpy : Bool) (hdr : Nat) (es : List Entry) (k : Nat) : Int :=
+  fieldStoredLineno docutilsBase .rst (paramOutLine numpy hdr es k)
+
+/-- `lineno_offset` of an unresolvable name in the type of entry `k`: `processtypes` builds
+`ParsedTypeDocstring(…, lineno=field.lineno)` for the `:type` field and links with that number -/
+def convertedTypeOffset (numpy : Bool) (hdr : Nat) (es : List Entry) (k : Nat) : Int :=
+  fieldStoredLineno docutilsBase .rst (typeOutLine numpy hdr es k)
+
 /-! ## `Documentable.report` -/
 
 inductive Sec | docstring | xref | other
